@@ -8,7 +8,8 @@
  * -s free|parent-first|child-first fixes the interleaving of the caller and the forked child at the two
  * extremes the model allows: parent-first parks the child at birth until the caller enters its read on
  * the sync pipe; child-first parks the caller when fork returns until the child exec'ed / exited.
- * -f opens PATH on descriptor FD for PROG (not close-on-exec); the tracer keeps the same open file
+ * -f FD:r|w|a:PATH opens PATH (read / write+truncate / write+append, no truncation) on descriptor FD for
+ * PROG (not close-on-exec); the tracer keeps the same open file
  * description and logs its file offset at the end ({"ev":"rawpos","fd":40,"pos":3}).  At the markers spawn:begin and
  * returned:* the descriptor table of the marking task is logged:
  *   {"ev":"fds","task":1,"at":"begin","pid":..,"pgrp":..,"fds":[{"fd":0,"link":"..","acc":0,"cloexec":0},..],"cwd":".."}
@@ -20,7 +21,9 @@
  *   {"ev":"sys","task":2,"nr":"dup3","k":1,"args":[5,0,0],"ret":-9,"inj":true}
  * where k numbers the calls of that system call by that task inside the window (a forked child
  * starts its own counts at 0).  The injection rule matches (task, nr, k): the call is NOT
- * executed (syscall number replaced by -1) and its result is forced to -E (or V); `close` is
+ * executed (syscall number replaced by -1) and its result is forced to -E (or V) - once, or with the
+ * key `persist` for the k-th AND every later call of that system call by that task (a failure that
+ * does not go away: a retry loop around it never ends); `close` is
  * executed and only its result overwritten (the kernel releases the descriptor even when close
  * reports an error).
  * Always logged: {"ev":"mark","task":t,"text":"returned:ok:0"} for every write(-1,"MARK:...")
@@ -89,6 +92,7 @@ struct task {
     int alive;
     int pending_stop; /* first stop seen, waiting for numbering */
     int expect_stop;  /* numbered at the parent's fork event, automatic SIGSTOP still to come */
+    int logged;       /* calls of this task written to the log (capped: a spinning task must not flood it) */
     int hold;         /* schedule control: park this task at its next stop */
     int parked, parksig;
     int in_sys;
@@ -110,7 +114,7 @@ static FILE *LOG;
 static int window = 0;
 static volatile sig_atomic_t timed_out = 0;
 
-static struct { int on, task, sys, k; long long val; int fired; } INJ;
+static struct { int on, task, sys, k; long long val; int fired; int persist; } INJ;
 /* schedule control (-s): 0 free; 1 parent-first: the forked child (task 2) is parked at its first stop until
  * the caller (task 1) is entering its first read (then blocks on the sync pipe); 2 child-first: the caller is
  * parked when fork returns until the child has exec'ed, exited or passed the return marker */
@@ -399,7 +403,8 @@ static void sys_enter(struct task *t, struct user_regs_struct *r)
         free(t->exec_json);
         t->exec_json = b.p;
     }
-    if (INJ.on && !INJ.fired && INJ.task == t->idx && INJ.sys == si && INJ.k == t->k) {
+    if (INJ.on && INJ.task == t->idx && INJ.sys == si &&
+        (INJ.persist ? t->k >= INJ.k : (!INJ.fired && INJ.k == t->k))) {
         INJ.fired = 1;
         t->forced = INJ.val;
         if (t->nr == SYS_close) {
@@ -434,6 +439,18 @@ static void sys_exit(struct task *t, struct user_regs_struct *r)
         if (ptrace(PTRACE_SETREGS, t->pid, 0, r) < 0)
             die("SETREGS (exit) failed: %s", strerror(errno));
         ret = t->forced;
+    }
+    if (++t->logged > (t->idx == 1 ? 20000 : 300)) {
+        /* a task that spins (e.g. repeats a failing call for ever): say so once, stop logging its calls */
+        if (t->logged == (t->idx == 1 ? 20001 : 301))
+            fprintf(LOG, "{\"ev\":\"flood\",\"task\":%d,\"nr\":\"%s\"}\n", t->idx, SYS[si].name);
+        if (t->nr == SYS_execve && ret == 0) {
+            t->execd = 1;
+            t->inwin = 0;
+            if (t->idx == 2)
+                child_done();
+        }
+        return;
     }
     if (t->nr == SYS_execve) {
         fprintf(LOG, "{\"ev\":\"exec\",\"task\":%d,\"k\":%d,%s,\"ret\":%lld,\"inj\":%s}\n", t->idx, t->k,
@@ -524,6 +541,8 @@ int main(int argc, char **argv)
                     INJ.val = -atoll(tok + 4);
                 else if (!strncmp(tok, "ret=", 4))
                     INJ.val = atoll(tok + 4);
+                else if (!strcmp(tok, "persist"))
+                    INJ.persist = 1;
                 else
                     die("bad injection key %s", tok);
             }
@@ -548,7 +567,7 @@ int main(int argc, char **argv)
         const char *c1 = strchr(opens[i], ':');
         if (!c1 || !c1[1] || c1[2] != ':')
             die("bad -f %s", opens[i]);
-        int fd = open(c1 + 3, c1[1] == 'w' ? (O_WRONLY | O_CREAT | O_TRUNC) : O_RDONLY, 0644);
+        int fd = open(c1 + 3, c1[1] == 'w' ? (O_WRONLY | O_CREAT | O_TRUNC) : c1[1] == 'a' ? (O_WRONLY | O_APPEND) : O_RDONLY, 0644);
         if (fd < 0)
             die("cannot open %s", c1 + 3);
         if (fd != want) {
